@@ -59,6 +59,11 @@ type PathMatcher struct {
 	val        *RNode
 	field      string
 	matchRegex string
+
+	// appended is set once doSeq has created the element for a list entry
+	// part; if the search still finds nothing afterwards the part cannot be
+	// created (its value, read as a regular expression, does not match itself).
+	appended bool
 }
 
 func (p *PathMatcher) stripComments(n *Node) {
@@ -86,6 +91,7 @@ func (p *PathMatcher) Filter(rn *RNode) (*RNode, error) {
 
 func (p *PathMatcher) filter(rn *RNode) (*RNode, error) {
 	p.Matches = map[*Node][]string{}
+	p.appended = false
 
 	if len(p.Path) == 0 {
 		// return the element wrapped in a SequenceNode
@@ -231,6 +237,13 @@ func (p *PathMatcher) doSeq(rn *RNode) (*RNode, error) {
 	if !IsCreate(p.Create) || p.val != nil {
 		return p.val, nil
 	}
+	if p.appended {
+		// the element created below was not found by the search: creating more
+		// of them would never end
+		return nil, errors.Errorf(
+			"unable to create a list entry matching %q: the created entry does not match it", p.Path[0])
+	}
+	p.appended = true
 
 	var elem *yaml.Node
 	valueNode := NewScalarRNode(p.matchRegex).YNode()
